@@ -255,8 +255,8 @@ def run(ctx, chk, tier="quick"):
                     atoms = sorted(op_.atoms())
                     # difference of two start indices, one being the dict key of the outer store, the other the comp variable
                     jkey = pst.targets[0].slice.id if isinstance(pst.targets[0].slice, ast.Name) else None
-                    off_ok = len(atoms) == 2 and jkey in atoms and op_.coeff_of_atom(atoms[0]) == -op_.coeff_of_atom(atoms[1]) \
-                        and abs(op_.coeff_of_atom(atoms[0]).const_value()) == 1
+                    off_ok = len(atoms) == 2 and jkey in atoms and \
+                        (op_ == Poly.atom(atoms[0]) - Poly.atom(atoms[1]) or op_ == Poly.atom(atoms[1]) - Poly.atom(atoms[0]))
                     pdesc = "%s|%s|" % ("-" if psign < 0 else "+", op_.key())
                 except NotAlgebraic:
                     pass
@@ -349,6 +349,43 @@ def run(ctx, chk, tier="quick"):
                 tail_ok = "%s[%s]" % (cand_p, proposer) in ast.unparse(st.test)
     chk.ob("C02.O3", tail_ok, where_of(fsm, loop), tdesc, "a rejected storm that still has candidates goes back to the free set",
            key="find_stable_matching|requeue-rejected", why="dropping it leaves it unmatched although an overlapping rise may prefer it")
+    # every re-queue happens only for a storm that still has candidates (the loop takes a
+    # candidate from every storm it pops): Engler-style consistency of the loop's own belief
+    pop_stmt = None
+    for st in loop.body:
+        for x in ast.walk(st):
+            if isinstance(x, ast.Call) and isinstance(x.func, ast.Attribute) and x.func.attr == "pop" \
+                    and isinstance(x.func.value, ast.Subscript) and isinstance(x.func.value.value, ast.Name) and x.func.value.value.id == cand_p:
+                pop_stmt = st
+    protected = False
+    if pop_stmt is not None:
+        # a dominating `if not CANDS[storm]: continue` (or the pop nested in `if CANDS[storm]:`) tolerates empty lists
+        for st in loop.body[:loop.body.index(pop_stmt)] if pop_stmt in loop.body else []:
+            if isinstance(st, ast.If) and ("%s[%s]" % (cand_p, proposer)) in ast.unparse(st.test) \
+                    and any(isinstance(y, ast.Continue) for y in ast.walk(st)):
+                protected = True
+        if pop_stmt not in loop.body:
+            protected = True
+    adds = [x for x in ast.walk(loop) if isinstance(x, ast.Call) and isinstance(x.func, ast.Attribute)
+            and isinstance(x.func.value, ast.Name) and x.func.value.id == free_set
+            and x.func.attr in ("add", "append", "insert", "appendleft", "update", "extend") and x.args]
+    for ad in adds:
+        target = ast.unparse(ad.args[-1])
+        need = "%s[%s]" % (cand_p, target)
+        guarded = protected
+        n_ = ad
+        while not guarded and n_ is not None and n_ is not loop:
+            par = getattr(n_, "parent", None)
+            if isinstance(par, ast.If) and n_ in par.body and need in ast.unparse(par.test).replace(" ", "").replace(need.replace(" ", ""), need):
+                # the test must require the list to be non-empty (truthiness / len > 0), not its negation
+                tt = ast.unparse(par.test)
+                guarded = ("not %s" % need) not in tt and ("len(%s) == 0" % need) not in tt
+            n_ = par
+        chk.ob("C02.O3", guarded, where_of(fsm, ad),
+               "re-queue `%s`: %s" % (ast.unparse(ad), "only when %s is non-empty" % need if guarded else "not conditional on %s being non-empty" % need),
+               "a storm goes back to the free set only if it still has candidates (the loop takes one from every storm it pops)",
+               key="find_stable_matching|requeue-has-candidates|%s" % target,
+               why="a displaced storm whose candidate list is exhausted is popped again and the loop's own `assert storm_candidates[storm]` fails: classification aborts")
     # the re-queue calls resolve on the container type (shared with C01.O1)
     bad = [(c, v, t, m) for c, v, t, m, ex in apires.container_method_sites(fsm) if v == free_set and not ex]
     chk.ob("C02.O3", not bad, where_of(fsm, bad[0][0] if bad else loop),
